@@ -1507,6 +1507,7 @@ func runC04(res *hx.Result, rng *hx.Rng, tier string, outdir string) {
 	if tier == "thorough" {
 		runs = 400
 	}
+	hungRuns := 0
 	for run := 0; run < runs; run++ {
 		nl := 1 + run%3
 		var links []*c04Link
@@ -1520,7 +1521,16 @@ func runC04(res *hx.Result, rng *hx.Rng, tier string, outdir string) {
 		}
 		ngor := 2 + rng.Intn(5)
 		ncalls := 10 + rng.Intn(20)
-		h.stress(res, rng, links, ngor, ncalls, fmt.Sprintf("run%d", run), nil)
+		if !h.stress(res, rng, links, ngor, ncalls, fmt.Sprintf("run%d", run), nil) {
+			// reported; every further run would wait for its deadlines again
+			if hungRuns++; hungRuns >= 4 {
+				h.note(fmt.Sprintf("concurrent runs: stopped after run %d, calls did not return in four runs", run))
+				for _, l := range links {
+					l.ep.Close()
+				}
+				break
+			}
+		}
 		h.crossingByImpl(res, links[0], run)
 		h.crossingByRelay(res, links[0], run)
 		for li, l := range links {
